@@ -5,7 +5,6 @@ import (
 	stdjson "encoding/json"
 	"encoding/xml"
 	"fmt"
-	"io"
 	"os"
 	"regexp"
 	"strings"
@@ -30,6 +29,7 @@ import (
 	"verifharness/oracle/htmlclean"
 	"verifharness/oracle/jsrun"
 	"verifharness/oracle/svgpath"
+	"verifharness/oracle/xmlinfo"
 )
 
 func TestMain(m *testing.M) { hx.Main(m) }
@@ -82,82 +82,8 @@ func jsValid(src string, module bool) (bool, error) {
 	return r.Status == "ok", nil
 }
 
-// xmlValid is encoding/xml in strict mode plus the document-level rules it does not enforce: exactly one
-// root element, no character data outside it, the XML declaration only at the very start, and <! only as
-// comment, CDATA or a DOCTYPE before the root.
-func xmlValid(b []byte) error {
-	d := xml.NewDecoder(bytes.NewReader(b))
-	d.Strict = true
-	d.CharsetReader = func(label string, input io.Reader) (io.Reader, error) { return input, nil }
-	d.Entity = xml.HTMLEntity
-	roots, depth, first := 0, 0, true
-	for {
-		off := d.InputOffset()
-		tok, err := d.RawToken()
-		if err == io.EOF {
-			if roots != 1 || depth != 0 {
-				return fmt.Errorf("%d root elements, depth %d at the end", roots, depth)
-			}
-			break
-		}
-		if err != nil {
-			return err
-		}
-		switch tk := tok.(type) {
-		case xml.StartElement:
-			if depth == 0 {
-				roots++
-			}
-			depth++
-			if !reXMLName.MatchString(tk.Name.Local) || tk.Name.Space != "" && !reXMLName.MatchString(tk.Name.Space) {
-				return fmt.Errorf("element name %q:%q", tk.Name.Space, tk.Name.Local)
-			}
-			for _, a := range tk.Attr {
-				if !reXMLName.MatchString(a.Name.Local) || a.Name.Space != "" && !reXMLName.MatchString(a.Name.Space) {
-					return fmt.Errorf("attribute name %q:%q", a.Name.Space, a.Name.Local)
-				}
-			}
-		case xml.EndElement:
-			depth--
-			if depth < 0 {
-				return fmt.Errorf("end tag without start tag")
-			}
-		case xml.CharData:
-			if depth == 0 && len(bytes.TrimSpace(tk)) > 0 {
-				return fmt.Errorf("character data outside the root element")
-			}
-		case xml.ProcInst:
-			if strings.EqualFold(tk.Target, "xml") && (!first || off != 0) {
-				return fmt.Errorf("XML declaration not at the start")
-			}
-			if !reXMLName.MatchString(tk.Target) {
-				return fmt.Errorf("processing instruction target %q", tk.Target)
-			}
-			if e := int(off) + 2 + len(tk.Target); e < len(b) && !strings.ContainsRune(" \t\r\n?", rune(b[e])) {
-				return fmt.Errorf("no whitespace after the processing instruction target")
-			}
-		case xml.Directive:
-			if depth != 0 || roots != 0 || !reDoctype.Match(tk) {
-				return fmt.Errorf("markup declaration outside the prolog")
-			}
-		}
-		first = false
-	}
-	// second pass with Token() for tag matching and namespace checks
-	d = xml.NewDecoder(bytes.NewReader(b))
-	d.Strict = true
-	d.CharsetReader = func(label string, input io.Reader) (io.Reader, error) { return input, nil }
-	d.Entity = xml.HTMLEntity
-	for {
-		_, err := d.Token()
-		if err == io.EOF {
-			return nil
-		}
-		if err != nil {
-			return err
-		}
-	}
-}
+// xmlValid: strict encoding/xml plus the document-level rules of xmlinfo.Document (HTML entity names allowed).
+func xmlValid(b []byte) error { return xmlinfo.Document(b, xml.HTMLEntity) }
 
 // svgRoot: an SVG document has an svg root element; elements outside the SVG vocabulary (metadata, foreign
 // namespaces) are removed by design, which would leave nothing of other roots.
@@ -175,9 +101,6 @@ func svgRoot(b []byte) bool {
 	}
 }
 
-// doctypedecl with an optional external id and an internal subset of entity declarations and comments only
-var reDoctype = regexp.MustCompile(`^DOCTYPE[ \t\r\n]+[A-Za-z_][-\w.]*([ \t\r\n]+(SYSTEM[ \t\r\n]+("[^"]*"|'[^']*')|PUBLIC[ \t\r\n]+("[^"]*"|'[^']*')[ \t\r\n]+("[^"]*"|'[^']*')))?[ \t\r\n]*(\[([ \t\r\n]|<!ENTITY[ \t\r\n]+[A-Za-z_][-\w.]*[ \t\r\n]+("[^"<&%]*"|'[^'<&%]*')[ \t\r\n]*>)*\][ \t\r\n]*)?$`)
-var reXMLName = regexp.MustCompile(`^[A-Za-z_][-A-Za-z0-9_.]*$`)
 
 var rePathD = regexp.MustCompile(`<path\b[^>]*?\sd=("[^"]*"|'[^']*')`)
 
